@@ -274,7 +274,7 @@ theorem applyBOp_count_eq {op : BOp} {b : Blk} {r : BRes} (hw : WF b) (h : Nat) 
       by_cases e : h' = h
       · subst e; simp [needFor, hh]
       · have : ¬ h = h' := fun x => e x.symm
-        by_cases e0 : h' = 0 <;> simp [needFor, e, this, e0]
+        by_cases e0 : h' = 0 <;> simp [needFor, e, this, e0] <;> omega
     · cases ha
   | assignIP h' o =>
     simp only [applyBOp] at ha
@@ -291,7 +291,7 @@ theorem applyBOp_count_eq {op : BOp} {b : Blk} {r : BRes} (hw : WF b) (h : Nat) 
         by_cases e : h' = h
         · subst e; simp [needFor, hh]
         · have : ¬ h = h' := fun x => e x.symm
-          by_cases e0 : h' = 0 <;> simp [needFor, e, this, e0]
+          by_cases e0 : h' = 0 <;> simp [needFor, e, this, e0] <;> omega
       · cases hv
     · cases ha
   | release h' ords =>
@@ -511,6 +511,7 @@ theorem got_grows_only_by_own_cas {s s' : St} {e : Ev} (hw : AllWF s) (h : step 
                   | (cases h; done)
                   | (injection h with h; subst h; exact absurd hin hnot)))
       · injection h with h; subst h; exact absurd hin hnot
+    · split at h <;> (injection h with h; subst h; exact absurd hin hnot)
     · injection h with h; subst h; exact absurd hin hnot
 
 
